@@ -45,4 +45,55 @@ theorem at_length3_eq (c : Curve α (V3 α)) (l : α) :
       let k := countLt c.lengths l
       if k < c.lengths.length && !decide (l < c.len k) then some (c.atVertex k)
       else GenRs.at_length_edge3 c l k := rfl
+
+/-! ### the WHOLE of `at_length` / `at_fraction` (binary search by its contract, `binarySearch`) -/
+
+/-- the search result decides between the exact vertex hit and the edge branch exactly as the model does -/
+theorem search_cases (ls : List α) (l : α) :
+    binarySearch ls l =
+      (if countLt ls l < ls.length && !decide (l < ls.getD (countLt ls l) default)
+        then SearchRes.found (countLt ls l) else SearchRes.insert (countLt ls l)) := by
+  unfold binarySearch countLt
+  generalize (ls.takeWhile (fun v => decide (v < l))).length = k
+  by_cases hk : k < ls.length
+  · have hget : ls[k]? = some ls[k] := List.getElem?_eq_getElem hk
+    have hd : ls.getD k default = ls[k] := by simp [List.getD_eq_getElem?_getD, hget]
+    simp only [hget, hd, hk, decide_true, Bool.true_and]
+    by_cases hlt : l < ls[k]
+    · simp [hlt]
+    · simp [hlt]
+  · have hget : ls[k]? = none := List.getElem?_eq_none (by omega)
+    simp [hget, hk]
+
+theorem at_length2_whole (c : Curve α (V2 α)) (l : α) : GenRs.at_length2 c l = c.atLength l := by
+  unfold GenRs.at_length2 Curve.atLength
+  rw [search_cases]
+  by_cases hg : (decide (l < 0) || decide (c.length < l)) = true
+  · simp only [hg, if_true]
+  · simp only [hg, if_false, Bool.false_eq_true]
+    unfold Curve.len
+    by_cases hx : (decide (countLt c.lengths l < c.lengths.length) && !decide (l < c.lengths.getD (countLt c.lengths l) default)) = true
+    · simp only [hx, if_true]
+    · simp only [hx, if_false, Bool.false_eq_true]
+      rfl
+
+theorem at_length3_whole (c : Curve α (V3 α)) (l : α) : GenRs.at_length3 c l = c.atLength l := by
+  unfold GenRs.at_length3 Curve.atLength
+  rw [search_cases]
+  by_cases hg : (decide (l < 0) || decide (c.length < l)) = true
+  · simp only [hg, if_true]
+  · simp only [hg, if_false, Bool.false_eq_true]
+    unfold Curve.len
+    by_cases hx : (decide (countLt c.lengths l < c.lengths.length) && !decide (l < c.lengths.getD (countLt c.lengths l) default)) = true
+    · simp only [hx, if_true]
+    · simp only [hx, if_false, Bool.false_eq_true]
+      rfl
+
+theorem at_fraction2_whole (c : Curve α (V2 α)) (f : α) : GenRs.at_fraction2 c f = c.atFraction f := by
+  unfold GenRs.at_fraction2 Curve.atFraction
+  exact at_length2_whole c _
+
+theorem at_fraction3_whole (c : Curve α (V3 α)) (f : α) : GenRs.at_fraction3 c f = c.atFraction f := by
+  unfold GenRs.at_fraction3 Curve.atFraction
+  exact at_length3_whole c _
 end C01T
